@@ -48,6 +48,29 @@ visit / post-visit, then page exit, then the flagged trace of the high page, if 
 theorem C17_protocol (high : Bool) (p : Pg K V D) : IsOptPageTrace high (tracePg high p) :=
   tracePg_wellformed high p
 
+/-- The visitor most users write: it implements only the required `visit_node` (collecting the
+nodes) and relies on the trait's DEFAULT implementations — no-ops returning `true` — for
+`pre_visit_node`, `post_visit_node`, `visit_page` and `post_visit_page`. -/
+def minimalVis : List (K × V) → Event K V D → List (K × V) × Bool :=
+  fun acc e => (match Event.node? e with | some kv => acc ++ [kv] | none => acc, true)
+
+theorem foldUntil_minimalVis (acc : List (K × V)) (l : List (Event K V D)) :
+    foldUntil minimalVis acc l = (acc ++ l.filterMap Event.node?, true) := by
+  induction l generalizing acc with
+  | nil => simp [foldUntil]
+  | cons e es ih =>
+    unfold foldUntil
+    cases h : Event.node? e with
+    | none => simp [minimalVis, h, ih]
+    | some kv => simp [minimalVis, h, ih, List.append_assoc]
+
+/-- Such a visitor is never stopped early and sees exactly the in-order nodes of the tree — the same
+sequence the node iterator yields — for every tree. -/
+theorem C17_default_visitor (p : Pg K V D) :
+    runPg minimalVis false p [] = (p.content, true) ∧ iterAll p = .ok p.content := by
+  refine ⟨?_, iterAll_eq_content p⟩
+  rw [runPg_eq_foldUntil, foldUntil_minimalVis, List.nil_append, tracePg_visitNodes]
+
 /-- Non-vacuity (test): a two-level tree with a high page; stop index 3. -/
 example :
     runRecorded (some 3)
